@@ -139,6 +139,35 @@ def c08_convention_oracle(root, prefix):
         return None
     return walk(root, prefix)
 
+def c08_first_asker_oracle(root, prefix):
+    """instances of C08_clash_suffix_in_document_order, read from the output tree alone: a numbered element carries its bare candidate
+    unless an earlier id (document order) is that candidate, bare or followed by _<k> suffixes"""
+    import re
+    G = tables()
+    seen = []
+    def walk(el, ctx):
+        tag = local(el)
+        if tag == 'meta':
+            return None
+        if tag not in G.id_exempt and tag not in G.id_exempt_but_pass_to_children:
+            eid = el.get('eId') or ''
+            n = clean_num_ref(num_text(el))
+            if n:
+                cand = (ctx + '__' if ctx else '') + G.aliases.get(tag, tag) + '_' + n
+                pat = re.compile(re.escape(cand) + r'(_[0-9]+)*\Z')
+                if eid != cand and not any(pat.match(y) for y in seen):
+                    return 'element <%s> numbered %r has eId %r although no earlier id is built on %r' % (tag, n, eid, cand)
+            seen.append(eid)
+            ctx = eid
+        if tag in G.id_exempt_but_pass_to_children:
+            ctx = (ctx + '__' + tag.lower()) if ctx else tag.lower()
+        for k in el:
+            if isinstance(k.tag, str):
+                r = walk(k, ctx)
+                if r: return r
+        return None
+    return walk(root, prefix)
+
 def erase_eids(el):
     el = copy.deepcopy(el)
     for x in iter_outside_meta(el):
